@@ -472,37 +472,47 @@ Definition string_arm (d : bytes) (c : option (list bytes)) : outcome (list N) :
   | None => parse_string d
   end.
 
+(* [depth] = substreams open at the record (`let mut depth = 0usize`, fix of audit-2 finding XLS-2):
+   the sheet's own BOF makes it 1; a BOF nested in the sheet (the chart of an embedded chart object,
+   [MS-XLS] 2.1.7.20.5 OBJECTS) makes it 2 and more: there an EOF closes one substream and every
+   other record is skipped; only an EOF at depth <= 1 ends the sheet.
+     match r.typ { 0x0809 => { depth += 1; continue }
+                   0x000A if depth > 1 => { depth -= 1; continue }
+                   _ if depth > 1 => continue,  _ => () } *)
 Fixpoint wb_sheet (recs : list (outcome rec_item)) (strings : list (list N)) (fmla_pos : N * N)
-         (cells : list scell) : outcome (list scell) :=
+         (cells : list scell) (depth : N) : outcome (list scell) :=
   match recs with
   | [] => Ok cells
   | Err e :: _ => Err e
   | Panic :: _ => Panic
   | OutOfFuel :: _ => OutOfFuel
   | Ok (t, d, c) :: rest =>
-    if t =? 253 then                                             (* 0x00FD LabelSst *)
+    if t =? 2057 then wb_sheet rest strings fmla_pos cells (depth + 1)   (* 0x0809 BOF *)
+    else if 1 <? depth then
+      wb_sheet rest strings fmla_pos cells (if t =? 10 then depth - 1 else depth)
+    else if t =? 253 then                                             (* 0x00FD LabelSst *)
       do c <- parse_label_sst d strings;
-      wb_sheet rest strings fmla_pos (cells ++ match c with Some x => [x] | None => [] end)
+      wb_sheet rest strings fmla_pos (cells ++ match c with Some x => [x] | None => [] end) depth
     else if t =? 516 then                                        (* 0x0204 Label *)
       do c <- parse_label d;
-      wb_sheet rest strings fmla_pos (cells ++ match c with Some x => [x] | None => [] end)
+      wb_sheet rest strings fmla_pos (cells ++ match c with Some x => [x] | None => [] end) depth
     else if t =? 519 then                                        (* 0x0207 String *)
       do s <- string_arm d c;
-      wb_sheet rest strings fmla_pos (cells ++ [(fst fmla_pos, snd fmla_pos, s)])
+      wb_sheet rest strings fmla_pos (cells ++ [(fst fmla_pos, snd fmla_pos, s)]) depth
     else if t =? 6 then                                          (* 0x0006 Formula *)
       if len d <? 20 then Err E_LEN else
       if formula_is_string_stub d then
         do row <- read_u16 d; do col <- read_u16 (drop 2 d);
-        wb_sheet rest strings (row, col) cells
+        wb_sheet rest strings (row, col) cells depth
       else Err E_UNMODELLED
     else if t =? 10 then Ok cells                                (* 0x000A EOF *)
     else if t =? 512 then                                        (* 0x0200 Dimensions *)
       (* parse_dimensions: 10 or 14 bytes, else XlsError::Len; the result only sizes a capped
          reservation *)
-      if (len d =? 10) || (len d =? 14) then wb_sheet rest strings fmla_pos cells else Err E_LEN
+      if (len d =? 10) || (len d =? 14) then wb_sheet rest strings fmla_pos cells depth else Err E_LEN
     else if (t =? 515) || (t =? 517) || (t =? 638) || (t =? 189) || (t =? 229)
     then Err E_UNMODELLED        (* Number, BoolErr, RK, MulRk, MergeCells *)
-    else wb_sheet rest strings fmla_pos cells
+    else wb_sheet rest strings fmla_pos cells depth
   end.
 
 (* the second loop of parse_workbook: one pass per BoundSheet8 entry, from its stream position *)
@@ -512,7 +522,7 @@ Fixpoint wb_sheets (stream : bytes) (strings : list (list N)) (l : list (N * lis
   | [] => Ok []
   | (pos, name) :: l' =>
     do sh <- get_from stream pos;                                (* stream.get(pos..).ok_or(EoStream) *)
-    do cells <- wb_sheet (records sh) strings (0, 0) [];
+    do cells <- wb_sheet (records sh) strings (0, 0) [] 0;
     do tl <- wb_sheets stream strings l';
     Ok ((name, cells) :: tl)
   end.
